@@ -6,6 +6,7 @@ import Gts.Lemmas.Embed
 import Gts.Lemmas.Delete
 import Gts.Model.Seq
 import Gts.Lemmas.Window
+import Gts.Lemmas.ConcatPieces
 import Gts.Lemmas.Guest
 import Gts.Lemmas.Record
 import Gts.Props.C02
@@ -177,7 +178,9 @@ theorem ambiguous_split_not_syntactic :
     (expand (shift (ambiguous 2 8) 5 3) 5 (-3)).beq (ordered [ambiguous 2 5, ambiguous 5 8]) = true := by
   decide
 
-/-- cutting the residues at sorted positions and concatenating the pieces restores them -/
+/-- a LIST identity (neither `Seq.slice` nor `Seq.concat` occurs): dropping / taking the residues at sorted
+positions and appending the pieces restores them; the statement about the program is
+`concat_pieces_restore_bytes` -/
 theorem concat_pieces_bytes (bs : List UInt8) :
     ∀ (cuts : List Nat) (a : Nat), (a :: cuts).Pairwise (· ≤ ·) → (a :: cuts).getLast? = some bs.length →
       (((a :: cuts).zip cuts).flatMap fun ab => (bs.drop ab.1).take (ab.2 - ab.1)) = bs.drop a
@@ -222,8 +225,10 @@ theorem piece_den_partial (l : Loc) (a b L : Int) (h0 : 0 ≤ a) (hab : a ≤ b)
   rw [e] at u
   exact t.trans u
 
-/-- the windows between consecutive cuts partition the positions: every residue of the feature
-falls into exactly one piece (so the pieces together denote exactly the original residues) -/
+/-- integer arithmetic only (no `Seq.slice`, no `Seq.concat`): for STRICTLY increasing cuts every position
+of `[a, L)` lies in SOME window between consecutive cuts (existence; uniqueness is not stated here, and
+strict sortedness excludes a cut at 0 / at L / a repeated cut — for those see `windows_cover` and the
+program-level theorems `concat_pieces_restore_bytes` / `concat_pieces_feature_partial` below) -/
 theorem windows_partition (cuts : List Int) (a L x : Int)
     (hs : (a :: cuts).Pairwise (· < ·)) (hl : (a :: cuts).getLast? = some L) (h0 : a ≤ x) (h1 : x < L) :
     ∃ w ∈ (a :: cuts).zip cuts, w.1 ≤ x ∧ x < w.2 := by
@@ -234,6 +239,165 @@ theorem windows_partition (cuts : List Int) (a L x : Int)
     · exact ⟨(a, b), by simp, h0, hx⟩
     · obtain ⟨w, hw, hw2⟩ := ih b (List.Pairwise.of_cons hs) (by simpa using hl) (by omega)
       exact ⟨w, by simp only [List.zip_cons_cons, List.mem_cons]; exact Or.inr hw, hw2⟩
+
+/-! ### slice*;concat as a program (audit finding S8)
+
+`Seq.pieces s cuts` = the records `Seq.slice s c_j c_{j+1}` over the consecutive cut points of
+`0 :: cuts ++ [s.len]` (as the harness cuts); `Seq.CutsOk` = that list is sorted (`≤`: a cut at 0, a cut at
+the length and repeated cuts — empty pieces — are included). -/
+
+/-- every position of `[0, L)` lies in a window, for sorted cuts with repeats / 0 / L allowed -/
+theorem windows_cover (L : Int) (cuts : List Int) (h : Seq.CutsOk L cuts) (x : Int) (h0 : 0 ≤ x) (h1 : x < L) :
+    ∃ w ∈ Seq.windows L cuts, w.1 ≤ x ∧ x < w.2 :=
+  Seq.windows_cover (cuts ++ [L]) 0 L x h (by rw [← List.cons_append, List.getLast?_append]; rfl) h0 h1
+
+/-- **slice*;concat restores the residues** — about the program: cutting the record with `Seq.slice` at
+any sorted list of positions in `[0, len]` (0, len and repeats included) and `Seq.concat` of the pieces
+in order gives back exactly the residues. -/
+theorem concat_pieces_restore_bytes (s : Seq) (cuts : List Int) (h : Seq.CutsOk s.len cuts) :
+    (Seq.concat (Seq.pieces s cuts)).bytes = s.bytes := by
+  rw [Seq.concat_bytes_flatten, Seq.pieces, List.map_map, ← List.flatMap_def]
+  have hc : ∀ w ∈ Seq.windows s.len cuts,
+      ((fun q : Seq => q.bytes) ∘ fun w : Int × Int => s.slice w.1 w.2) w
+        = (s.bytes.drop w.1.toNat).take (w.2 - w.1).toNat := by
+    intro w hw
+    obtain ⟨h0, hab, _⟩ := Seq.mem_windows h w hw
+    simp only [Function.comp, Seq.slice_fwd_eq s _ _ h0 hab]; rfl
+  rw [flatMap_congr_mem _ _ _ hc]
+  have := Seq.pieces_bytes_aux s.bytes (cuts ++ [s.len]) 0 (by omega) h
+    (by rw [← List.cons_append, List.getLast?_append]; rfl)
+  simpa [Seq.windows, Seq.windowsFrom] using this
+
+/-- **the feature table of slice*;concat**: a permutation of — for the first window — the features `Slice`
+keeps (overlap filter, `sliceLoc`, `asComplete` on `source`), NOT offset, and — for every later window
+`[a, b)` — the same re-located by `Concat` with `Expand(0, a)`: the running length of the pieces so far IS the
+window start.  Nothing else is in the table. -/
+theorem concat_pieces_table_perm (s : Seq) (cuts : List Int) (h : Seq.CutsOk s.len cuts) :
+    ∃ w0 ws, Seq.windows s.len cuts = w0 :: ws ∧ w0.1 = 0 ∧
+      (Seq.concat (Seq.pieces s cuts)).feats.Perm
+        (Seq.pieceFeats s w0 ++ ws.flatMap (Seq.pieceFeatsBack s)) :=
+  Seq.concat_pieces_feats_perm s cuts h
+
+/-- FULL STATEMENT of the feature half for one piece (false today through known finding K2): without the
+guards a piece may lose a residue — already for one cut-free "piece" (the whole record, one feature
+`join(3..6, 6)` written as a literal: `Slice` rebuilds the join and K2 drops the point). -/
+theorem concat_pieces_feature_full_refuted :
+    ¬ (∀ (s : Seq) (cuts : List Int) (f : Feature) (w : Int × Int), Seq.CutsOk s.len cuts → f ∈ s.feats →
+        w ∈ Seq.windows s.len cuts → wf f.loc = true → (∀ p ∈ den f.loc, 0 ≤ p.1 ∧ p.1 < s.len) →
+        f.loc.overlap w.1 w.2 = true →
+        ∃ f' ∈ (Seq.concat (Seq.pieces s cuts)).feats, f'.key = f.key ∧ f'.props = f.props ∧
+          den f'.loc ≼ (den f.loc).filter (fun p => decide (w.1 ≤ p.1 ∧ p.1 < w.2))) := by
+  intro h
+  obtain ⟨f', hf', _, _, hd⟩ := h ⟨[⟨"x", joined [ranged 3 6 false false, point 6], []⟩], [65, 65, 65, 65, 65, 65, 65, 65]⟩ []
+    ⟨"x", joined [ranged 3 6 false false, point 6], []⟩ (0, 8) (by unfold Seq.CutsOk; decide) (List.mem_cons_self ..)
+    (by decide) (by decide) (by decide) (by decide)
+  have hm := hd.2 (6, false) (by decide)
+  have hall : ∀ g ∈ (Seq.concat (Seq.pieces ⟨[⟨"x", joined [ranged 3 6 false false, point 6], []⟩],
+      [65, 65, 65, 65, 65, 65, 65, 65]⟩ [])).feats, ((6, false) : Pos) ∉ den g.loc := by decide
+  exact hall f' hf' hm
+
+/-- **a feature's part in one piece, as the program produces it**: for every feature `f` of `s` and every
+window `w = [a, b)` of the cut that `f` overlaps (Slice's own filter), the result of
+`Seq.concat (Seq.pieces s cuts)` contains a feature with `f`'s key and qualifiers whose location — `sliceLoc`
+(`asComplete` of it for `source`), offset by `Concat` — denotes exactly `den f ∩ [a, b)` at the ORIGINAL
+positions and strands (duplicates possibly merged).  Guards (K2, as in `piece_den_partial`, on the location
+actually re-located): `g1`, `g2` for the two `Expand`s of Slice, `hnn` / `g3` for Concat's `Expand(0, a)` — for
+the first, un-offset piece `hnn` / `g3` are not used. -/
+theorem concat_pieces_feature_partial (s : Seq) (cuts : List Int) (h : Seq.CutsOk s.len cuts)
+    (f : Feature) (hf : f ∈ s.feats) (w : Int × Int) (hw : w ∈ Seq.windows s.len cuts)
+    (hwf : wf f.loc = true) (hpos : ∀ p ∈ den f.loc, 0 ≤ p.1 ∧ p.1 < s.len)
+    (hov : f.loc.overlap w.1 w.2 = true)
+    (g1 : expandAbs f.loc w.2 (w.2 - s.len) = false)
+    (g2 : expandAbs (f.loc.expand w.2 (w.2 - s.len)) 0 (-w.1) = false)
+    (hnn : nonneg (Seq.pieceLoc f w.1 w.2 s.len) = true)
+    (g3 : expandAbs (Seq.pieceLoc f w.1 w.2 s.len) 0 w.1 = false) :
+    ∃ f' ∈ (Seq.concat (Seq.pieces s cuts)).feats, f'.key = f.key ∧ f'.props = f.props ∧
+      den f'.loc ≼ (den f.loc).filter (fun p => decide (w.1 ≤ p.1 ∧ p.1 < w.2)) := by
+  obtain ⟨h0, hab, hbL⟩ := Seq.mem_windows h w hw
+  obtain ⟨w0, ws, hws, hw0, hperm⟩ := Seq.concat_pieces_feats_perm s cuts h
+  have sl := sliceLoc_den f.loc w.1 w.2 s.len h0 hab hbL hwf hpos g1 g2
+  have hden : den (Seq.pieceLoc f w.1 w.2 s.len) = den (sliceLoc f.loc w.1 w.2 s.len) := by
+    unfold Seq.pieceLoc; split
+    · exact den_asComplete _
+    · rfl
+  have hwfp : wf (Seq.pieceLoc f w.1 w.2 s.len) = true := by
+    unfold Seq.pieceLoc; split
+    · rw [wf_asComplete]; exact sl.2
+    · exact sl.2
+  have hin : ({ f with loc := Seq.pieceLoc f w.1 w.2 s.len } : Feature) ∈ Seq.pieceFeats s w := by
+    simp only [Seq.pieceFeats, List.mem_map, List.mem_filter]
+    exact ⟨f, ⟨hf, hov⟩, rfl⟩
+  rw [hws] at hw
+  rcases List.mem_cons.mp hw with hw | hw
+  · -- the first piece: not offset
+    subst hw
+    refine ⟨_, hperm.symm.subset (List.mem_append_left _ hin), rfl, rfl, ?_⟩
+    show den (Seq.pieceLoc f w.1 w.2 s.len) ≼ _
+    rw [hden]
+    have := sl.1
+    rw [hw0] at this ⊢
+    rwa [window_zero] at this
+  · -- a later piece: offset by its window start
+    refine ⟨{ f with loc := (Seq.pieceLoc f w.1 w.2 s.len).expand 0 w.1 },
+      hperm.symm.subset (List.mem_append_right _ (List.mem_flatMap.mpr ⟨w, hw, ?_⟩)), rfl, rfl, ?_⟩
+    · simp only [Seq.pieceFeatsBack, List.mem_map]
+      exact ⟨_, hin, rfl⟩
+    · show den ((Seq.pieceLoc f w.1 w.2 s.len).expand 0 w.1) ≼ _
+      have t := guest_translate (Seq.pieceLoc f w.1 w.2 s.len) w.1 hwfp hnn h0 g3
+      rw [hden] at t
+      have u := mapPos_refines (· + w.1) sl.1
+      rw [window_back] at u
+      exact t.trans u
+
+/-- **the pieces together cover the feature**: every residue `f` denotes is denoted, at the same position and
+strand, by a feature of `Seq.concat (Seq.pieces s cuts)` with `f`'s key and qualifiers (the guards for every
+window of the cut). -/
+theorem concat_pieces_feature_cover_partial (s : Seq) (cuts : List Int) (h : Seq.CutsOk s.len cuts)
+    (f : Feature) (hf : f ∈ s.feats) (hwf : wf f.loc = true) (hpos : ∀ p ∈ den f.loc, 0 ≤ p.1 ∧ p.1 < s.len)
+    (hg : ∀ w ∈ Seq.windows s.len cuts,
+      expandAbs f.loc w.2 (w.2 - s.len) = false ∧
+      expandAbs (f.loc.expand w.2 (w.2 - s.len)) 0 (-w.1) = false ∧
+      nonneg (Seq.pieceLoc f w.1 w.2 s.len) = true ∧
+      expandAbs (Seq.pieceLoc f w.1 w.2 s.len) 0 w.1 = false)
+    (p : Pos) (hp : p ∈ den f.loc) :
+    ∃ f' ∈ (Seq.concat (Seq.pieces s cuts)).feats, f'.key = f.key ∧ f'.props = f.props ∧ p ∈ den f'.loc := by
+  obtain ⟨w, hw, hw1, hw2⟩ := windows_cover s.len cuts h p.1 (hpos p hp).1 (hpos p hp).2
+  have hov := overlap_of_mem_den f.loc w.1 w.2 hwf p hp hw1 hw2
+  obtain ⟨g1, g2, hnn, g3⟩ := hg w hw
+  obtain ⟨f', hf', hk, hpr, hd⟩ := concat_pieces_feature_partial s cuts h f hf w hw hwf hpos hov g1 g2 hnn g3
+  exact ⟨f', hf', hk, hpr, hd.2 p (List.mem_filter.mpr ⟨hp, by simpa using ⟨hw1, hw2⟩⟩)⟩
+
+/-- **nothing else**: every feature of `Seq.concat (Seq.pieces s cuts)` is the piece of some feature `f` of `s` in
+some window `w` that `f` overlaps — with `f`'s key and qualifiers and the location `pieceLoc` (first window) or
+`Expand(0, w.1)` of it — so by `concat_pieces_feature_partial` it denotes residues of `den f ∩ w` only. -/
+theorem concat_pieces_feature_origin (s : Seq) (cuts : List Int) (h : Seq.CutsOk s.len cuts)
+    (f' : Feature) (hf' : f' ∈ (Seq.concat (Seq.pieces s cuts)).feats) :
+    ∃ f ∈ s.feats, ∃ w ∈ Seq.windows s.len cuts, f.loc.overlap w.1 w.2 = true ∧
+      f'.key = f.key ∧ f'.props = f.props ∧
+      (f'.loc = Seq.pieceLoc f w.1 w.2 s.len ∨ f'.loc = (Seq.pieceLoc f w.1 w.2 s.len).expand 0 w.1) := by
+  obtain ⟨w0, ws, hws, _, hperm⟩ := Seq.concat_pieces_feats_perm s cuts h
+  rcases List.mem_append.mp (hperm.subset hf') with hm | hm
+  · simp only [Seq.pieceFeats, List.mem_map, List.mem_filter] at hm
+    obtain ⟨f, ⟨hf, hov⟩, rfl⟩ := hm
+    exact ⟨f, hf, w0, by rw [hws]; exact List.mem_cons_self .., hov, rfl, rfl, Or.inl rfl⟩
+  · obtain ⟨w, hw, hm⟩ := List.mem_flatMap.mp hm
+    simp only [Seq.pieceFeatsBack, Seq.pieceFeats, List.mem_map, List.mem_filter] at hm
+    obtain ⟨_, ⟨f, ⟨hf, hov⟩, rfl⟩, rfl⟩ := hm
+    exact ⟨f, hf, w, by rw [hws]; exact List.mem_cons_of_mem _ hw, hov, rfl, rfl, Or.inr rfl⟩
+
+/-- non-vacuity: a record of 10 residues with a `source` feature and a complement-strand join, cut at
+`0, 4, 4, 10` (a cut at 0, a repeated cut, a cut at the length): the cut list is admissible, the join
+overlaps the window `[4, 10)` and meets every guard there, and the program restores the table's denotations
+(the empty window `[4, 4)` lies inside `source` and passes Slice's overlap filter: an empty piece) -/
+example :
+    (0 :: [0, 4, 4, 10] ++ [((⟨[⟨"source", ranged 0 10 false false, []⟩, ⟨"CDS", compl (joined [ranged 1 3 true false, ranged 5 8 false true]), []⟩], [65, 67, 71, 84, 65, 67, 71, 84, 65, 67]⟩ : Seq)).len]).Pairwise (· ≤ ·) ∧ ((4, 10) : Int × Int) ∈ Seq.windows ((⟨[⟨"source", ranged 0 10 false false, []⟩, ⟨"CDS", compl (joined [ranged 1 3 true false, ranged 5 8 false true]), []⟩], [65, 67, 71, 84, 65, 67, 71, 84, 65, 67]⟩ : Seq)).len [0, 4, 4, 10] ∧
+    wf ((⟨"CDS", compl (joined [ranged 1 3 true false, ranged 5 8 false true]), []⟩ : Feature)).loc = true ∧ ((⟨"CDS", compl (joined [ranged 1 3 true false, ranged 5 8 false true]), []⟩ : Feature)).loc.overlap 4 10 = true ∧
+    expandAbs ((⟨"CDS", compl (joined [ranged 1 3 true false, ranged 5 8 false true]), []⟩ : Feature)).loc 10 (10 - ((⟨[⟨"source", ranged 0 10 false false, []⟩, ⟨"CDS", compl (joined [ranged 1 3 true false, ranged 5 8 false true]), []⟩], [65, 67, 71, 84, 65, 67, 71, 84, 65, 67]⟩ : Seq)).len) = false ∧ expandAbs (((⟨"CDS", compl (joined [ranged 1 3 true false, ranged 5 8 false true]), []⟩ : Feature)).loc.expand 10 (10 - ((⟨[⟨"source", ranged 0 10 false false, []⟩, ⟨"CDS", compl (joined [ranged 1 3 true false, ranged 5 8 false true]), []⟩], [65, 67, 71, 84, 65, 67, 71, 84, 65, 67]⟩ : Seq)).len)) 0 (-4) = false ∧
+    nonneg (Seq.pieceLoc (⟨"CDS", compl (joined [ranged 1 3 true false, ranged 5 8 false true]), []⟩ : Feature) 4 10 ((⟨[⟨"source", ranged 0 10 false false, []⟩, ⟨"CDS", compl (joined [ranged 1 3 true false, ranged 5 8 false true]), []⟩], [65, 67, 71, 84, 65, 67, 71, 84, 65, 67]⟩ : Seq)).len) = true ∧ expandAbs (Seq.pieceLoc (⟨"CDS", compl (joined [ranged 1 3 true false, ranged 5 8 false true]), []⟩ : Feature) 4 10 ((⟨[⟨"source", ranged 0 10 false false, []⟩, ⟨"CDS", compl (joined [ranged 1 3 true false, ranged 5 8 false true]), []⟩], [65, 67, 71, 84, 65, 67, 71, 84, 65, 67]⟩ : Seq)).len) 0 4 = false ∧
+    ((Seq.concat (Seq.pieces (⟨[⟨"source", ranged 0 10 false false, []⟩, ⟨"CDS", compl (joined [ranged 1 3 true false, ranged 5 8 false true]), []⟩], [65, 67, 71, 84, 65, 67, 71, 84, 65, 67]⟩ : Seq) [0, 4, 4, 10])).feats.map fun g => (g.key, den g.loc)) =
+      [("source", fwd [0, 1, 2, 3]), ("source", []), ("source", fwd [4, 5, 6, 7, 8, 9]),
+       ("CDS", flipDen (fwd [5, 6, 7])), ("CDS", flipDen (fwd [1, 2]))] := by
+  decide
 
 /-- non-vacuity -/
 example : wf (joined [ranged 2 5 true false, ranged 7 9 false true]) = true ∧
